@@ -532,20 +532,21 @@ def _blocks(rng, dom_space, nb, lkinds=None):
 def _fb_cases(rng, tier, cs, alias):
     import odl
     nper = 24 if tier == 'quick' else 100
-    for _ in range(nper):
+    for idx in range(nper):
         n = rng.randint(1, 3)
         space = odl.rn(n)
-        f, ft, fk = _fn(rng, space, PRIMAL_KINDS)
+        forced = idx < 2
+        f, ft, fk = _fn(rng, space, ['l1', 'tr-l2sq', 'l2sq'] if forced else PRIMAL_KINDS)
         if rng.random() < 0.3:
             h, hterm, hd = (odl.solvers.ZeroFunctional(space),
                             _rec(sm_q=C.q(0), sm_M=C.qss(np.eye(n).tolist()), sm_Mt=C.qss(np.eye(n).tolist()),
                                  sm_b=C.qs([0.0] * n)), 'zero')
         else:
             h, hterm, hd = _smooth(rng, space)
-        Ls, gs, ls, terms, desc = _blocks(rng, space, rng.choice([0, 1, 1, 2]), ['l2sq', 'tr-l2sq'])
+        Ls, gs, ls, terms, desc = _blocks(rng, space, 0 if forced else rng.choice([0, 1, 1, 2]), ['l2sq', 'tr-l2sq'])
         tau = rng.choice(DY)
-        x0 = _ivec(rng, n, -3, 3)
-        niter = rng.choice([0, 1, 2, 3, 5])
+        x0 = [float(rng.randint(1, 3)) for _ in range(n)] if forced else _ivec(rng, n, -3, 3)
+        niter = rng.choice([2, 3]) if forced else rng.choice([0, 1, 2, 3, 5])
         x = space.element(x0)
         tr = []
         kw = {'l': ls} if ls is not None else {}
@@ -560,14 +561,15 @@ def _fb_cases(rng, tier, cs, alias):
 def _dr_cases(rng, tier, cs):
     import odl
     nper = 24 if tier == 'quick' else 100
-    for _ in range(nper):
+    for idx in range(nper):
         n = rng.randint(1, 3)
         space = odl.rn(n)
-        f, ft, fk = _fn(rng, space, PRIMAL_KINDS)
-        Ls, gs, ls, terms, desc = _blocks(rng, space, rng.choice([0, 1, 1, 2, 3]), DUAL_KINDS)
+        forced = idx < 3            # always a few runs of the `len(L) == 0` branches that can tell updates apart
+        f, ft, fk = _fn(rng, space, ['l1', 'tr-l2sq', 'l2sq'] if forced else PRIMAL_KINDS)
+        Ls, gs, ls, terms, desc = _blocks(rng, space, 0 if forced else rng.choice([0, 1, 1, 2, 3]), DUAL_KINDS)
         tau = rng.choice(DY)
-        x0 = _ivec(rng, n, -3, 3)
-        niter = rng.choice([0, 1, 2, 3, 5])
+        x0 = [float(rng.randint(1, 3)) for _ in range(n)] if forced else _ivec(rng, n, -3, 3)
+        niter = rng.choice([2, 3]) if forced else rng.choice([0, 1, 2, 3, 5])
         mode = rng.choice(['default', 'const', 'callable'])
         seq = [rng.choice([1.0, 0.5, 1.5]) for _ in range(niter)]
         x = space.element(x0)
